@@ -3,8 +3,8 @@ CONSTANTS
   Threads = {t1, t2, t3}
   Socks = {s1, s2}
   AtomicCheck = TRUE
-  DeadBind = TRUE
-  DeadAdopt = FALSE
+  DeadBind = FALSE
+  DeadAdopt = TRUE
   MaxDeliver = 2
 INVARIANT NoStuck
 INVARIANT ResultTyped
